@@ -258,6 +258,14 @@ func (fr *FuncRun) def(sort, expr string) string {
 	return n
 }
 
+// constFor introduces a declared constant equal to expr (usable inside :pattern annotations, where
+// defined macros containing ite/and/not are not allowed).
+func (fr *FuncRun) constFor(sort, expr, hint string) string {
+	n := fr.fresh(sort, hint)
+	fr.emit(fmt.Sprintf("(assert (= %s %s))", n, expr))
+	return n
+}
+
 func (fr *FuncRun) defAlways(sort, expr, hint string) string {
 	n := fr.freshName(hint)
 	fr.emit(fmt.Sprintf("(define-fun %s () %s %s)", n, sort, expr))
